@@ -601,8 +601,11 @@ MUTANTS = _LazyMutants()
 
 # --------------------------------------------------------------------------- scenario sources
 MC_QUICK = [Pr('move', 200), Pr('move', 0, -100, 0, 500), Pr('move', 0, 0, -300), Pr('turn', 1, 36, 0, 72),
-            Pr('start', 0, 0, -200), Pr('stop'), Pr('move', 0, 0, 100, 200), Pr('circle', 1, 90, 100, 200),
-            Pr('wait', 150), Pr('turn', 1, 360, 0, 72)]
+            Pr('start', 0, 0, -200), Pr('stop'), Pr('move', 0, 0, 100, 200), Pr('circle', 1, 90, 100, 200)]
+# the body pauses for less than an update period; a full turn; (thorough) more than a full turn, a longer pause:
+# combined with every other primitive in all programs up to length 2
+MC_EDGE = [Pr('wait', 150), Pr('turn', 1, 360, 0, 72)]
+MC_EDGE_MORE = [Pr('turn', -1, 450, 0, 90), Pr('wait', 500)]
 # programs about time: the body pauses (shorter / longer than the update period) between commands, some of
 # them equal to the command in force (stop while hovering, the same velocity commanded again)
 MC_TIMED = [Pr('wait', 150), Pr('wait', 500), Pr('stop'), Pr('start', 100), Pr('start', 0, 0, -200)]
@@ -634,7 +637,9 @@ def scenarios_enumerated(tier):
     out = []
     mc_a, mc_n = (MC_QUICK, 2) if tier == 'quick' else (MC_QUICK + MC_MORE, 3)
     hl_a, hl_n = (HL_QUICK, 2) if tier == 'quick' else (HL_QUICK + HL_MORE, 3)
-    for prog in _programs(mc_a, mc_n):
+    mc_e = MC_EDGE if tier == 'quick' else MC_EDGE + MC_EDGE_MORE
+    mc_progs = list(_programs(mc_a, mc_n)) + [p for p in _programs(mc_a + mc_e, 2) if any(x in mc_e for x in p)]
+    for prog in mc_progs:
         for tail in ([], [RAISE]):
             for kind in ('fifo', 'spfirst'):
                 out.append({'helper': 'MC', 'mode': 'with', 'prog': prog + tail, 'dh': 300, 'sched': {'kind': kind}})
@@ -841,8 +846,26 @@ def _exec_job(job):
     return execute(sc, mutant)
 
 
+def _pmap(fn, items, init=None, chunksize=None):
+    """common.pmap with one difference: a worker process that disappears (killed by the kernel under memory
+    pressure) ends the run as a machinery failure instead of leaving the parent waiting for ever."""
+    import concurrent.futures as cf
+    import multiprocessing as mp
+    items = list(items)
+    nproc = min(common.NCPU, max(1, len(items)))
+    if nproc <= 1 or len(items) < 4:
+        return common.pmap(fn, items, init=init)
+    cs = chunksize or max(1, len(items) // (nproc * 8))
+    try:
+        with cf.ProcessPoolExecutor(nproc, mp_context=mp.get_context('fork'), initializer=common._init_worker,
+                                    initargs=(init, ())) as ex:
+            return list(ex.map(common._guarded, [(fn, x) for x in items], chunksize=cs))
+    except cf.process.BrokenProcessPool as e:
+        raise common.MachineryError('a worker process of the check died (%s)' % (e,))
+
+
 def run_scenarios(scs, mutant=None):
-    return common.pmap(_exec_job, [(sc, mutant) for sc in scs], init=_install, maxtasks=300)
+    return _pmap(_exec_job, [(sc, mutant) for sc in scs], init=_install)
 
 
 def cfg_key(t):
@@ -878,7 +901,7 @@ def judge(out, traces, label):
             part = idxs[a:a + chunk]
             jobs.append((key, [_slim(traces[i], n + 1) for n, i in enumerate(part)]))
             where.append(part)
-    results = common.pmap(_judge_job, jobs, chunksize=1) if len(jobs) > 1 else [_judge_job(jobs[0])]
+    results = _pmap(_judge_job, jobs, chunksize=1) if len(jobs) > 1 else [_judge_job(jobs[0])]
     bad, drift = [], 0
     per = {}
     for (key, (verdicts, st)), part in zip(results, where):
@@ -1023,8 +1046,9 @@ def main(tier, seed, replay=None):
     out.rule = ('execution = (helper, constructor defaults, with/explicit, program, exception point, schedule); sources: '
                 'TLC -simulate behaviours of Flight (program and firing order), exhaustive enumeration of all programs up to '
                 'length %d over %d MotionCommander / %d PositionHlCommander primitives with and without an exception after '
-                'every prefix under the two extreme interleaving policies, plus all MotionCommander programs of length %s '
-                'over the %d pause/repeat primitives (%d executions; exhaustive refers to this space), '
+                'every prefix under the two extreme interleaving policies, plus all MotionCommander programs up to '
+                'length 2 that combine these with a pause or a full turn (thorough: also a longer pause, more than a full turn), '
+                'plus all MotionCommander programs of length %s over the %d pause/repeat primitives (%d executions; exhaustive refers to this space), '
                 'seeded random longer programs (with pauses, turns of a full revolution and more, polling loops that command '
                 'an unchanged velocity again) under random/PCT schedules; distinct = distinct (program, schedule) pairs'
                 % ((2, len(MC_QUICK), len(HL_QUICK), '3', len(MC_TIMED), n_enum) if tier == 'quick'
@@ -1050,7 +1074,7 @@ def main(tier, seed, replay=None):
         for i in pool[::step]:
             jobs.append((all_scs[i], name))
             owner.append(name)
-    mt = common.pmap(_exec_job, jobs, init=_install, maxtasks=300)
+    mt = _pmap(_exec_job, jobs, init=_install)
     o2 = common.Outcome('C17', tier, seed)
     mbad, _ = judge(o2, mt, 'mutants')
     out.tlc_runs += o2.tlc_runs
